@@ -634,7 +634,7 @@ def eval_v0(desc, ev):
         ev.oracle += oracle_rt(base, res, v0=True)
         corr_load(text, res.get("mf_lines"), ev)
         if "score" in res:
-            corr_dec(text, res, ev)
+            corr_dec(text, res, ev, last_bar_end=False)
         ev.key = "v0:%s:%s" % (base.get("sub"), ".".join(map(str, vt)))
     ev.info["v0"] = ".".join(map(str, vt))
     return ev
@@ -1258,7 +1258,7 @@ def corr_load(text, mf_lines, ev):
     return sidn, pidn
 
 
-def corr_dec(text, res, ev, desc=None):
+def corr_dec(text, res, ev, desc=None, last_bar_end=True):
     """score reconstruction: snote / signature lines of the text -> model; loaded part -> implementation.
     With the case description also END TO END: saved score + stored notes -> model's write-then-read
     (`Score.roundTrip`) against the same loaded part"""
@@ -1325,8 +1325,16 @@ def corr_dec(text, res, ev, desc=None):
     dec_impl = W.f_tuple(str(divs), "[" + ",".join(bl) + "]", W.f_rat(W.as_fraction(last_end)) if last_end is not None else "-",
                          W.f_list(lambda x: W.f_tuple(W.f_rat(x[0]), str(x[1]), str(x[2])), tsp),
                          W.f_list(W.f_rat, ksp), str(res.get("n_fallback", 0)))
-    ev.requests.append("dec " + body)
-    ev.impl.append(dec_impl)
+    if last_bar_end:
+        ev.requests.append("dec " + body)
+        ev.impl.append(dec_impl)
+    else:
+        # synthesised old-format files hold binary64 reprs of the beat times: whether the last bar line lies at or
+        # just before a time-signature change is decided by float noise, so its END is not compared
+        ev.requests.append("decx " + body)
+        ev.impl.append(W.f_tuple(str(divs), "[" + ",".join(bl) + "]",
+                                 W.f_list(lambda x: W.f_tuple(W.f_rat(x[0]), str(x[1]), str(x[2])), tsp),
+                                 W.f_list(W.f_rat, ksp), str(res.get("n_fallback", 0))))
     rt_body = None
     if desc is not None:
         pd = desc["part"]
